@@ -23,7 +23,7 @@ def specStep (strict : Bool) (S : Schema) (i : Nat) (o : UOpts) (childDec : Nat 
           -- unknown path: also taken for a known number with a mismatching wire type (`errUnknown`)
           let asUnknown (known : Bool) : Res (Val × Bytes) :=
             if strict && known then .err .wrongWireType else
-            match consumeValue (2 * r.length + 2) 10000 num wt r with
+            match consumeValue (2 * r.length + 2) 10001 num wt r with
             | .ok r' =>
               let raw := bs.take (bs.length - r'.length)
               let m' := if o.discard then m else Val.msg m.slots (m.unknown ++ raw)
@@ -143,8 +143,8 @@ theorem lenDelim_append {r r1 : Bytes} {n : Nat} (hcv : consumeVarint r = .ok (n
   simp only [List.length_drop]; omega
 
 theorem unknown_append {bs r r' : Bytes} {num wt : Nat} (ht : consumeTag bs = .ok (num, wt, r))
-    (hv : consumeValue (2 * r.length + 2) 10000 num wt r = .ok r') (t : Bytes) :
-    consumeValue (2 * (r ++ t).length + 2) 10000 num wt (r ++ t) = .ok (r' ++ t) ∧
+    (hv : consumeValue (2 * r.length + 2) 10001 num wt r = .ok r') (t : Bytes) :
+    consumeValue (2 * (r ++ t).length + 2) 10001 num wt (r ++ t) = .ok (r' ++ t) ∧
       (bs ++ t).take ((bs ++ t).length - (r' ++ t).length) = bs.take (bs.length - r'.length) ∧
       r'.length < bs.length := by
   have h1 := (consume_append _).1 _ _ _ _ _ t hv
@@ -481,11 +481,11 @@ theorem specEntryLoop_mono (kk : Kind) (e : Elem) :
           -- the skip path, shared by three branches
           have skipOK : ∀ (mism : Bool),
               (if (strict && mism) = true then Res.err Err.wrongWireType else
-                match consumeValue (2 * r.length + 2) 10000 num wt r with
+                match consumeValue (2 * r.length + 2) 10001 num wt r with
                 | .ok r' => specEntryLoop strict c1 kk e fuel r' k v
                 | .err e => .err e | .panic => .panic) = .ok res →
               (if (strict && mism) = true then Res.err Err.wrongWireType else
-                match consumeValue (2 * r.length + 2) 10000 num wt r with
+                match consumeValue (2 * r.length + 2) 10001 num wt r with
                 | .ok r' => specEntryLoop strict c2 kk e fuel r' k v
                 | .err e => .err e | .panic => .panic) = .ok res := by
             intro mism h
